@@ -339,7 +339,22 @@ def fixed_tuple(elems):
     return harness
 
 
-def union(members, depth=0):
+def pair_value(name):
+    """A two-element list (or one-item dict) of scalars: the shape on which container members of a Union disagree."""
+    def sc(n):
+        k = S.choice(n + ".kind", 3)
+        if k == 0:
+            return S.int(n, -2, 3)
+        if k == 1:
+            return S.pick(n + ".float", [0.5, 2.0])
+        return S.pick(n + ".str", ["1", "a", "-1"])
+
+    if S.flag(name + ".dict"):
+        return {"k": sc(name + ".k"), "j": sc(name + ".j")}
+    return [sc(name + "[0]"), sc(name + "[1]")]
+
+
+def union(members, depth=0, pairs=False):
     install_format_stubs()
     INT_WINDOW[0] = (-2, 3) if _uses_restricted(members) else None
     perms = [list(p) for p in itertools.permutations(members)]
@@ -365,7 +380,7 @@ def union(members, depth=0):
                 if acc and res is not None and not strict_conforms(res, ["Union"] + p):
                     return Fail("conformance:accepted-text-result-does-not-conform", order=p, text=t, result_type=type(res).__name__)
             return True
-        v = element("v", depth)
+        v = pair_value("v") if pairs else element("v", depth)
         member_verdicts = [accept_obj(m, v)[0] for m in members]
         exp = any(member_verdicts)
         for p in perms:
@@ -408,6 +423,12 @@ def plan(tier):
     jobs.append(("union", dict(members=[["List", "int"], "int"], depth=1)))
     jobs.append(("union", dict(members=["str", ["List", "int"]], depth=1)))
     jobs.append(("union", dict(members=["str", ["Dict", "int"]], depth=1)))
+    # two container members: an earlier member may convert some elements before it fails on a later one
+    jobs.append(("union", dict(members=[["List", "PositiveInt"], ["List", "str"]], depth=1, pairs=True)))
+    jobs.append(("union", dict(members=[["Dict", "PositiveInt"], ["Dict", "str"]], depth=1, pairs=True)))
+    jobs.append(("union", dict(members=[["Tuple", "int", "int"], ["Tuple", "str", "str"]], depth=1, pairs=True)))
+    jobs.append(("union", dict(members=[["Set", "int"], ["List", "str"]], depth=1, pairs=True)))
+    jobs.append(("union", dict(members=[["Tuple", "float", "str"], ["Tuple", "int", "int"]], depth=1, pairs=True)))
     if tier == "thorough":
         jobs.append(("container", dict(head="List", elem=["Dict", "int"], depth=1)))
         jobs.append(("container", dict(head="Dict", elem=["Optional", ["List", "int"]], depth=1)))
